@@ -85,10 +85,40 @@ let handle (ext : SS.t list -> SS.t option) line =
   | ["SG"; fmt; field; pdu] -> show (s_get (coq_string fmt) (coq_string field) (buf_of_hex pdu))
   | ["SS"; fmt; field; pdu; v] -> show (s_set (coq_string fmt) (coq_string field) (buf_of_hex pdu) (n_of_hex v))
   | ["SI"; fmt; pdu] -> show (s_init (coq_string fmt) (buf_of_hex pdu))
+  | ["SX"; first; width; pdu] -> show (RVal (spec_extract (buf_of_hex pdu) (n_of_hex first) (n_of_hex width)))
+  | ["SN"; first; width; pdu; v] -> show (RBuf (Some (spec_insert (buf_of_hex pdu) (n_of_hex first) (n_of_hex width) (n_of_hex v))))
   | ["H"; br; k; w; x] -> show (m_helper (br = "BE") (kind_of k) (width_of w) (n_of_hex x))
   | _ -> (match ext t with Some r -> r | None -> "BADCMD")
 
+let ocaml_string (s : Oracle_core.string) : SS.t =
+  let b = Buffer.create 16 in
+  let rec go = function
+    | EmptyString -> ()
+    | String (Ascii (b0, b1, b2, b3, b4, b5, b6, b7), r) ->
+        let v = List.fold_left (fun acc x -> 2 * acc + (if x then 1 else 0)) 0 [b7; b6; b5; b4; b3; b2; b1; b0] in
+        Buffer.add_char b (Char.chr v); go r in
+  go s; Buffer.contents b
+
+let nz s = if s = "" then "-" else s
+
+(* the reference layouts as text, for the case generators (single source: coq/Spec.v) *)
+let dump_spec () =
+  List.iter (fun s ->
+    Printf.printf "FMT %s %s %s %s %s %s %s %s\n" (ocaml_string s.sp_name) (ocaml_string s.sp_src)
+      (ocaml_string s.sp_type) (hex_of_n s.sp_hdr_len) (ocaml_string s.sp_get_field) (ocaml_string s.sp_set_field)
+      (ocaml_string s.sp_sentinel) (nz (ocaml_string s.sp_init));
+    List.iter (fun f ->
+      Printf.printf "FLD %s %s %s %s %s %s\n" (ocaml_string s.sp_name) (ocaml_string f.sf_name)
+        (hex_of_n f.sf_first) (hex_of_n f.sf_width) (nz (ocaml_string f.sf_getter)) (nz (ocaml_string f.sf_setter)))
+      s.sp_fields;
+    List.iter (fun (n, v) -> Printf.printf "INITC %s %s %s\n" (ocaml_string s.sp_name) (ocaml_string n) (hex_of_n v))
+      s.sp_init_consts;
+    (match canonical_header s with
+     | Some h -> Printf.printf "CANON %s %s\n" (ocaml_string s.sp_name) (hex_of_buf h)
+     | None -> Printf.printf "CANON %s NONE\n" (ocaml_string s.sp_name))) all_specs
+
 let () =
+  if Array.length Sys.argv > 1 && Sys.argv.(1) = "--dump-spec" then (dump_spec (); exit 0);
   let ext = Driver_ext.handle in
   try
     while true do
